@@ -104,6 +104,7 @@ func checkCmd(args []string) int {
 	repo := fs.String("repo", "/repo", "")
 	writeBase := fs.Bool("write-baseline", false, "record the claimed set from this run (pinned tree only)")
 	noEvidence := fs.Bool("no-evidence", false, "")
+	noReplay := fs.Bool("no-replay", false, "do not run replays on the real code")
 	evidenceOut := fs.String("evidence", "", "evidence path (default /verif/evidence/<id>.json)")
 	fs.Parse(args)
 	if *prop == "" {
@@ -136,7 +137,7 @@ func checkCmd(args []string) int {
 	fns := relevantFuncs(w, spec, *prop)
 	res := verifyAll(w, spec, fns, opt, 16, nil)
 	extra := extraObligations(w, spec, *prop, opt)
-	run := &checkRun{prop: *prop, tier: *tier, seed: seed, root: root, w: w, spec: spec, res: res, extra: extra, t0: t0}
+	run := &checkRun{prop: *prop, tier: *tier, seed: seed, root: root, w: w, spec: spec, res: res, extra: extra, t0: t0, noReplay: *noReplay}
 	if *writeBase {
 		return run.writeBaseline()
 	}
@@ -151,6 +152,9 @@ type checkRun struct {
 	res   []*funcResult
 	extra []*extraResult
 	t0    time.Time
+	noReplay bool
+	canary   []canaryResult
+	harness  []harnessResult
 }
 
 // extraResult: obligations that do not come from one function's body (COPY field tables, NONDET sites, lemmas).
@@ -321,17 +325,33 @@ func (r *checkRun) decide(noEvidence bool, evidenceOut string) int {
 		}
 		viol = append(viol, violation{ob: o, reason: "claimed obligation no longer discharges (" + o.Verdict + ")"})
 	}
-	// 2. obligations that are new with respect to the baseline
+	// 2. obligations that are new with respect to the baseline. Obligation names contain source text, so
+	// an edit (even a rename of a local) makes the obligations of the edited statements disappear and
+	// reappear under new names. Per function and obligation kind the successors are matched by count:
+	// claimed obligations that disappeared need as many proved successors, unproved ones that disappeared
+	// absorb as many failing successors. Only a claimed obligation left without a proved successor while
+	// an unabsorbed successor fails is "an obligation that passed on the pinned tree and fails now".
 	newFail := 0
+	missingUnprovedByFn := map[string]int{}
+	for _, n := range base.Unproved {
+		if _, ok := cur[n]; !ok {
+			missingUnprovedByFn[fnOfName(n)+"|"+famKind(n)]++
+		}
+	}
+	newProvedByFn := map[string]int{}
+	newFailByFn := map[string][]*Oblig{}
+	var keys []string
 	for _, o := range obs {
 		if claimed[o.Name] || unprovedBase[o.Name] {
 			continue
 		}
+		key := o.Fn + "|" + famKind(o.Name)
 		if o.Verdict == "unsat" || o.Verdict == "dropped" {
 			if haveBase {
 				discharged++ // new and proved: counted, fine
 				nclaimedPresent++
 				byBackend[o.Solver]++
+				newProvedByFn[key]++
 			}
 			continue
 		}
@@ -339,24 +359,43 @@ func (r *checkRun) decide(noEvidence bool, evidenceOut string) int {
 			continue
 		}
 		newFail++
-		key := o.Fn + "|" + famKind(o.Name)
-		if len(missingByFn[key]) > 0 {
-			// an obligation of the same kind in the same function was proved on the pinned tree and its
-			// edited successor fails now
-			old := missingByFn[key][0]
-			missingByFn[key] = missingByFn[key][1:]
-			viol = append(viol, violation{ob: o, reason: "edited obligation fails (was " + old + ", " + o.Verdict + ")"})
-			continue
+		if len(newFailByFn[key]) == 0 {
+			keys = append(keys, key)
 		}
-		if (o.Family == "POST" || o.Family == "COPY") && o.Verdict == "sat" && clauseProvedAtBase(o, base) {
-			viol = append(viol, violation{ob: o, reason: "a postcondition that was proved at every return of this function on the pinned tree is refuted at a return path of the edited function"})
-			continue
+		newFailByFn[key] = append(newFailByFn[key], o)
+	}
+	for _, key := range keys {
+		fails := newFailByFn[key]
+		lostClaimed := len(missingByFn[key]) - newProvedByFn[key] // claimed obligations without a proved successor
+		excess := len(fails) - missingUnprovedByFn[key]           // failing successors not explained by old unproved ones
+		nrep := 0
+		if lostClaimed > 0 && excess > 0 {
+			nrep = lostClaimed
+			if excess < nrep {
+				nrep = excess
+			}
 		}
-		if o.Verdict == "sat" && r.fullyProvedAtBase(o, base) {
-			viol = append(viol, violation{ob: o, reason: "new obligation refuted in a function whose obligations of this kind were all proved on the pinned tree"})
-			continue
+		// refuted ones first: they carry a model
+		sort.SliceStable(fails, func(i, j int) bool { return fails[i].Verdict == "sat" && fails[j].Verdict != "sat" })
+		for i, o := range fails {
+			if i < nrep {
+				old := missingByFn[key][0]
+				if len(missingByFn[key]) > i {
+					old = missingByFn[key][i]
+				}
+				viol = append(viol, violation{ob: o, reason: fmt.Sprintf("edited obligation fails: %d claimed obligation(s) of this kind in this function have no proved successor (e.g. %s), %s", lostClaimed, old, o.Verdict)})
+				continue
+			}
+			if (o.Family == "POST" || o.Family == "COPY") && o.Verdict == "sat" && clauseProvedAtBase(o, base) {
+				viol = append(viol, violation{ob: o, reason: "a postcondition that was proved at every return of this function on the pinned tree is refuted at a return path of the edited function"})
+				continue
+			}
+			if o.Verdict == "sat" && excess > 0 && r.fullyProvedAtBase(o, base) {
+				viol = append(viol, violation{ob: o, reason: "new obligation refuted in a function whose obligations of this kind were all proved on the pinned tree"})
+				continue
+			}
+			undecided = append(undecided, "new unproved obligation: "+o.Name+" ("+o.Verdict+")")
 		}
-		undecided = append(undecided, "new unproved obligation: "+o.Name+" ("+o.Verdict+")")
 	}
 	// 3. known findings
 	knownPrinted := map[string]bool{}
@@ -387,7 +426,8 @@ func (r *checkRun) decide(noEvidence bool, evidenceOut string) int {
 		if enc != nil && (v.ob.Verdict == "sat" || v.ob.Verdict == "unknown") {
 			v.model = enc.modelFor(v.ob, 8000)
 		}
-		if rt := r.tryReplay(v, replayCache); rt != nil {
+		if r.noReplay {
+		} else if rt := r.tryReplay(v, replayCache); rt != nil {
 			v.test = rt
 			v.confirmed = rt.Failed
 		}
@@ -414,6 +454,22 @@ func (r *checkRun) decide(noEvidence bool, evidenceOut string) int {
 		fmt.Printf("UNDECIDED property=%s %s\n", r.prop, u)
 	}
 	vac := r.vacuity()
+	if r.tier == "thorough" && !noEvidence {
+		r.canary = r.canaries()
+		for _, c := range r.canary {
+			if c.Applied && !c.Detected {
+				fmt.Printf("SELFTEST property=%s canary %s is not reported any more: %s\n", r.prop, c.Seed, c.Note)
+			}
+		}
+		if r.prop == "C17" {
+			r.harness = r.copyHarnessAll()
+			for _, h := range r.harness {
+				if h.Result != "ok" {
+					fmt.Printf("HARNESS property=%s %s: %s\n", r.prop, h.Function, h.Result)
+				}
+			}
+		}
+	}
 	if !noEvidence {
 		r.writeEvidence(evidenceOut, obs, nclaimedPresent, discharged, byBackend, solverMs, len(realViol), undecided, base, vac, knownPrinted)
 	}
@@ -631,6 +687,23 @@ func (r *checkRun) writeEvidence(out string, obs []*Oblig, nob, discharged int, 
 		"out_of_subset_notes": unsup,
 		"samples": samples,
 		"exhaustive": false,
+	}
+	if r.tier == "thorough" {
+		det, app := 0, 0
+		for _, c := range r.canary {
+			if c.Applied {
+				app++
+			}
+			if c.Detected {
+				det++
+			}
+		}
+		cov["mutation_canaries"] = r.canary
+		cov["mutation_canaries_applied"] = app
+		cov["mutation_canaries_detected"] = det
+		if r.harness != nil {
+			cov["executable_copy_harness_bounded"] = r.harness
+		}
 	}
 	ev := map[string]interface{}{
 		"property_id": r.prop, "tier": r.tier, "seed": r.seed, "level": "proof",
